@@ -99,7 +99,8 @@ Record cfgd := {
   d_lh_mode : str;
   d_is_localhost : bool;              (* hp.isLocalhost(hostname) as observed *)
   d_idna : list (str * str);          (* idna.Lookup.ToASCII on the non-ASCII names of this request; identity elsewhere *)
-  d_puny : list (str * str)           (* idna.ToASCII (plain Punycode) on them *)
+  d_puny : list (str * str);          (* idna.ToASCII (plain Punycode) on them *)
+  d_aliases : list str                (* hostsfile.LocalhostAliases(): loopback names of the hosts file, as written there *)
 }.
 Fixpoint assoc_bool (k : str) (l : list (str * bool)) : bool :=
   match l with [] => false | (a, v) :: r => if str_eqb k a then v else assoc_bool k r end.
@@ -118,7 +119,13 @@ Record fcase := { fc_cfg : cfgd; fc_t : target; fc_out : presult }.
 Definition fcase_model_ok (c : fcase) : bool := presult_eqb (proxy_for (cfg_of (fc_cfg c)) (fc_t c)) (fc_out c).
 (* the hop the function names is the spec's, and (unless an external UpstreamProxyFunc produced it) a URL it
    hands to its two consumers always has a scheme both of them support *)
+(* the classifier's answer for this request's host is the reference's (the host that is contacted is a
+   loopback / unspecified address, "localhost", or - in any letter case - a loopback name of the hosts file) *)
+Definition localhost_answer_ok (d : cfgd) (t : target) : bool :=
+  Bool.eqb (d_is_localhost d) (localhost_ref (c_idna (cfg_of d)) (d_aliases d) (hostname t)).
+
 Definition fcase_prop_ok (c : fcase) : bool :=
+  localhost_answer_ok (fc_cfg c) (fc_t c) &&
   hop_eqb (presult_hop (fc_out c)) (spec_hop (cfg_of (fc_cfg c)) (fc_t c)) &&
   match fc_out c, d_upfunc (fc_cfg c) with
   | PUrl sch _, None => match ptype_of_scheme sch with Some _ => true | None => false end
@@ -195,6 +202,7 @@ Definition agree_pair (c : ecase) (p q : part) : bool :=
    short spec names, or nobody when it says the request fails) and plain/CONNECT agree *)
 Definition ecase_prop_ok (c : ecase) : bool :=
   forallb (part_ok spec_exchange c) (ec_parts c) &&
+  forallb (fun p => match p with (d, t, _) => localhost_answer_ok d t end) (ec_parts c) &&
   forallb (fun p => forallb (agree_pair c p) (ec_parts c)) (ec_parts c).
 
 (* ---------- H: history independence of the PAC resolver: a sequence of look-ups on ONE resolver (bare, and
